@@ -73,7 +73,7 @@ func (c *Conn) readMessage() error {
 	if err != nil {
 		return err
 	}
-	if contentLength > c.config.ReadMaxPayloadSize {
+	if contentLength < 0 || contentLength > c.config.ReadMaxPayloadSize {
 		return internal.CloseMessageTooLarge
 	}
 
